@@ -114,7 +114,7 @@ def add_sum_two_numbers_with_shift(
                 input_labels_a[0],
                 '0000',
             )
-            for i in range(n, shift - n):
+            for i in range(n, shift):
                 d[i] = [zero]
         for i in range(m):
             d[i + shift] = [input_labels_b[i]]
